@@ -331,6 +331,39 @@ def rule_f(ctx, E):
     ctx.floor(R, 10)
 
 
+def rule_g(ctx, E):
+    R = "C10.g"
+    ctx.rule(R, "metadata updates are declared, not written into the input: correct_metadata of every correction class returns its updates and does "
+             "not modify the objects held by the metadata it is given -- BaseCorrection.__call__ passes image.metadata(), a shallow copy whose "
+             "lists (dimensions, date, time) and arrays (origin) are the input image's own; an in-place write into one of them changes the "
+             "input although overwrite=False")
+    m = ctx.model
+    seen = set()
+    for mod in m.modules.values():
+        for k in mod.classes.values():
+            f = k.methods.get("correct_metadata")
+            if f is None or f in seen or len(f.params) < 2:
+                continue
+            seen.add(f)
+            ctx.instance(R)
+            p_ = f.params[1]
+            bad = []
+            for ev in E.events_on(f, p_):
+                nd = ev.node
+                # `metadata[key] = value` / metadata.update(...) / metadata.pop(...) act on the dictionary itself (a fresh shallow copy)
+                if isinstance(nd, ast.Assign) and all(isinstance(t, ast.Subscript) and isinstance(t.value, ast.Name) and t.value.id == p_ for t in nd.targets):
+                    continue
+                if isinstance(nd, ast.Expr) and isinstance(nd.value, ast.Call) and isinstance(nd.value.func, ast.Attribute) and isinstance(nd.value.func.value, ast.Name) \
+                        and nd.value.func.value.id == p_ and nd.value.func.attr in ("update", "pop", "setdefault", "clear"):
+                    continue
+                if isinstance(nd, ast.Call) and isinstance(nd.func, ast.Attribute) and isinstance(nd.func.value, ast.Name) and nd.func.value.id == p_ and nd.func.attr in ("update", "pop", "setdefault", "clear"):
+                    continue
+                bad.append(ev)
+            ctx.ob(R, f.qname, f"{k.name}.correct_metadata does not write into the objects held by its `{p_}` argument", not bad,
+                   "; ".join(str(e)[:140] for e in bad[:2]) + " -- these objects belong to the input image", bad[0].node if bad else f.node, evidence=True)
+    ctx.floor(R, 3)
+
+
 def rule_e(ctx):
     R = "C10.e"
     ctx.rule(R, "construction-time corrections run in order, in place: Image.__init__ iterates `transformations` in list order and calls "
@@ -357,6 +390,7 @@ def run(ctx):
     rule_d(ctx)
     rule_e(ctx)
     rule_f(ctx, E)
+    rule_g(ctx, E)
     # BaseCorrection.__call__ visits range(image.time_num) slices: the series clause rests on Image keeping time_num = number of slices
     from . import c02
     from .common import shared
